@@ -103,6 +103,8 @@ def gen_case(seed, i):
     if rng.random() < 0.2:
         opts["max"] = rng.choice([0, 1, 5, 49, 500])
     opts["L"] = opts_L
+    if "depth" in opts and not any(e["p"].endswith("ignore") for e in w.entries) and rng.random() < 0.4:
+        opts["L"] = True
     opts["S"] = rng.random() < 0.3
     opts["i"] = rng.random() < 0.2
     opts["cwd"] = rng.choice(dirs)
@@ -114,9 +116,16 @@ def gen_case(seed, i):
         if rng.random() < 0.3:
             opts["name"] = [rng.choice(["*.txt", "*.TXT", "?", "f.*", "*", "README", "x1.txt"])]
         if rng.random() < 0.3:
-            opts["path"] = [rng.choice(["**/sub/**", "@W@/R1/**", "*/*", "**/a+b/*", "**/*.txt", "*", "@W@/**/d.e/**", "sub/*", "**/(p)/**", "**"])]
+            opts["path"] = [rng.choice(["**/sub/**", "@W@/R1/**", "*/*", "**/a+b/*", "**/*.txt", "*", "@W@/**/d.e/**", "sub/*", "**/(p)/**", "**",
+                                        # patterns whose literal prefix is long / non-ASCII and that need a descent below it
+                                        "*/**", "*/*/*", "a/**", "sub/**", "@W@/R1/żółw/**", "@W@/R1/日本/**", "@W@/R2/żółw/*/*", "@W@/R1/a+b/**"])]
         if rng.random() < 0.3:
             opts["exclude"] = [rng.choice(["**/sub/**", "**/*.dat", "@W@/R1/a/**", "*", "**/b/*", "**/\\[q\\]/**", "*/*.txt", "**/żółw/**"])]
+    # a directory link sitting exactly at the depth limit (and one just inside it), when both options are on
+    if "depth" in opts and opts["depth"] >= 1 and opts["L"] and rng.random() < 0.7:
+        at = [d for d in dirs if d.count("/") == opts["depth"] - 1] or [roots[0]]
+        tgt = [d for d in dirs if any(f.startswith(d + "/") for f in files)] or dirs
+        w.add_symlink(rng.choice(at) + "/dl_at_limit", "@ROOT@/" + rng.choice(tgt))
     rootargs = list(roots)
     r = rng.random()
     if r < 0.15:
@@ -292,4 +301,50 @@ def _regex_alternation_unanchored(case, violation):
     return bool(violation.get("extra"))
 
 
-KNOWN_PREDICATES = {"c09-regex-alternation-anchoring": _regex_alternation_unanchored}
+def _literal_prefix(pat):
+    out = ""
+    i = 0
+    while i < len(pat):
+        if pat[i] in "*?[{@+!(":
+            break
+        if pat[i] == "\\" and i + 1 < len(pat):
+            out += pat[i + 1]
+            i += 2
+            continue
+        out += pat[i]
+        i += 1
+    return out
+
+
+def _nonascii_prefix_pruning(case, violation):
+    """directory pruning compares byte lengths with character counts: with non-ASCII text in the
+    literal prefix of a --path pattern (from the pattern itself or from the working directory of a
+    relative pattern) directories below that prefix are skipped.  Accepted: only missed files, each
+    of them below such a non-ASCII literal prefix."""
+    o = case["opts"]
+    if o.get("regex") or violation.get("extra") or not violation.get("missed") or not o.get("path"):
+        return False
+    cwd = o["cwd"].encode("latin-1").decode("utf-8", "replace")
+    prefixes = []
+    for p in o["path"]:
+        if p.startswith("**"):
+            continue
+        if p.startswith("@W@/"):
+            lit = _literal_prefix(p[4:])
+        elif p.startswith("/"):
+            continue
+        else:
+            lit = cwd + "/" + _literal_prefix(p)
+        if any(ord(ch) > 127 for ch in lit):
+            prefixes.append(lit.rsplit("/", 1)[0] if not lit.endswith("/") else lit.rstrip("/"))
+    if not prefixes:
+        return False
+    for m in violation["missed"]:
+        mu = m.encode("latin-1").decode("utf-8", "replace")
+        if not any(mu.startswith(pre + "/") for pre in prefixes):
+            return False
+    return True
+
+
+KNOWN_PREDICATES = {"c09-regex-alternation-anchoring": _regex_alternation_unanchored,
+                    "c09-nonascii-literal-prefix-pruning": _nonascii_prefix_pruning}
